@@ -227,3 +227,135 @@ def classify_generic(pid_hint):
             return True
         return False
     return fn
+
+
+# ------------------------------------------------------------------------------------------------
+# names -> meaning (C11): the key a NAME announces, independent of what the row binds
+# ------------------------------------------------------------------------------------------------
+KERNEL_OF_OPNAME = {"dot": "KDot", "cosine": "KCosine", "squared_euclidean": "KEuclid", "squared_norm": "KNorm", "sum": "KSum",
+                    "max_horizontal": "KMaxH", "max_vertical": "KMaxV", "max_value": "KMaxVal", "min_horizontal": "KMinH",
+                    "min_vertical": "KMinV", "min_value": "KMinVal", "add_value": "KAddVal", "sub_value": "KSubVal",
+                    "mul_value": "KMulVal", "div_value": "KDivVal", "add_vector": "KAddVec", "sub_vector": "KSubVec",
+                    "mul_vector": "KMulVec", "div_vector": "KDivVec"}
+RUST_OF_KERNEL = {"KDot": "generic_dot_product", "KCosine": "generic_cosine", "KEuclid": "generic_euclidean",
+                  "KNorm": "generic_squared_norm", "KSum": "generic_sum", "KMaxH": "generic_max_horizontal",
+                  "KMaxV": "generic_max_vertical", "KMaxVal": "generic_max_value", "KMinH": "generic_min_horizontal",
+                  "KMinV": "generic_min_vertical", "KMinVal": "generic_min_value", "KAddVal": "generic_add_value",
+                  "KSubVal": "generic_sub_value", "KMulVal": "generic_mul_value", "KDivVal": "generic_div_value",
+                  "KAddVec": "generic_add_vector", "KSubVec": "generic_sub_vector", "KMulVec": "generic_mul_vector",
+                  "KDivVec": "generic_div_vector"}
+KIND_OF_KERNEL = {"KDot": "Dist", "KCosine": "Dist", "KEuclid": "Dist", "KNorm": "Horiz", "KSum": "Horiz", "KMaxH": "Horiz",
+                  "KMinH": "Horiz", "KMaxV": "Vert", "KMinV": "Vert", "KAddVec": "Vert", "KSubVec": "Vert", "KMulVec": "Vert",
+                  "KDivVec": "Vert", "KMaxVal": "Value", "KMinVal": "Value", "KAddVal": "Value", "KSubVal": "Value",
+                  "KMulVal": "Value", "KDivVal": "Value"}
+
+
+def meaning_of_name(name):
+    """<ty>_x<form>_<arch>_<fma|nofma>_<op> -> (ty, Register, Kernel) or None."""
+    parts = name.split("_")
+    if len(parts) < 5 or parts[1] not in ("xany", "xconst"):
+        return None
+    ty, arch, tag = parts[0], parts[2], parts[3]
+    op = "_".join(parts[4:])
+    if ty not in WIDTH or op not in KERNEL_OF_OPNAME or tag not in ("fma", "nofma"):
+        return None
+    reg = {"fallback": "Fallback", "avx512": "Avx512", "neon": "Neon"}.get(arch)
+    if arch == "avx2":
+        reg = "Avx2Fma" if tag == "fma" else "Avx2"
+    if reg is None:
+        return None
+    return ty, reg, KERNEL_OF_OPNAME[op]
+
+
+def check_names(ctx, facts):
+    """(C) by name: each executable export, called by its NAME on inputs that separate every pair of operations,
+    must behave as the operation / back end / fusedness its name announces (model of the name's meaning)."""
+    g = Gen(ctx.seed * 31 + 11)
+    for config in ("stable", "nightly"):
+        rows = select(facts, config)
+        cases, meta = [], []
+        for idx, e in rows:
+            mean = meaning_of_name(e["xany"])
+            if mean is None:
+                ctx.violation("export-name-unparsable:" + e["xany"], "export name %s does not follow <ty>_x<form>_<arch>_<fma|nofma>_<op>" % e["xany"],
+                              {"kind": "static", "row": e})
+                continue
+            ty, reg, kern = mean
+            kind = KIND_OF_KERNEL[kern]
+            if kind != KIND[e["macro"]]:
+                ctx.violation("export-name-shape:" + e["xany"], "export %s has the signature of another operation family" % e["xany"],
+                              {"kind": "static", "row": e})
+                continue
+            L = lanes(e)
+            for n in sorted({2, L + 1, 8 * L + L + 2}):
+                for cls in ("small", "unit") if ty[0] == "f" else ("small", "random"):
+                    la, lb, lr = {"Dist": (n, n, 0), "Horiz": (n, 0, 0), "Vert": (n, n, n), "Value": (n, 0, n)}[kind]
+                    a = g.vec(ty, la, cls)
+                    b = g.vec(ty, lb, cls, nonzero=True)
+                    r = g.vec(ty, lr, "random")
+                    v = g.vec(ty, 1, cls, nonzero=True)[0]
+                    line = case_line(idx, e, "a", None, False, "R", v, a, b, r)
+                    cases.append(line)
+                    meta.append((idx, e, "a", n, cls, "R", "%s:%s:%s" % (ty, reg, kern)))
+        if not cases:
+            continue
+        ok, log = harness_build.build_cfh(config)
+        okd, logd = harness_build.build_driver()
+        if not ok or not okd:
+            ctx.broke("correspondence", "C:by-name build (%s)" % config, (log if not ok else logd)[-1200:])
+            continue
+        imp = runner.impl("exp", cases, config=config)
+        named = [" ".join([m[6]] + c.split(" ")[1:]) for c, m in zip(cases, meta)]
+        mod = runner.model("exp", named)
+        bad = 0
+        for c, m, a, b in zip(cases, meta, imp, mod):
+            idx, e, form, n, cls, place, key = m
+            ee = dict(e)
+            ee["op"] = RUST_OF_KERNEL[key.split(":")[2]]
+            if not lines_agree(a, b, ee, config, n):
+                bad += 1
+                ctx.violation("export-name:" + e["xany"],
+                              "export %s, called by name (%s build, n=%d), does not compute what its name says (%s on %s): "
+                              "it is bound to %s on %s" % (e["xany"], config, n, key.split(":")[2], key.split(":")[1], e["op"], e["reg"]),
+                              {"kind": "input", "case": "exp " + c[:3000], "build": config, "observed": (a or "<crashed>")[:800],
+                               "expected": (b or "")[:800], "meaning_of_name": key})
+        ctx.cover(len(cases), distinct_keys=["name|%d" % hash(c) for c in cases],
+                  samples=[{"case": cases[0][:200], "impl": (imp[0] or "")[:120], "model_of_name": (mod[0] or "")[:120]}],
+                  rule="(C) by name, %s build: every executable export called by NAME on operation-separating data "
+                       "(small integers / unit-range floats, non-zero divisors) at n in {2, L+1, 9L+2}; compared with the "
+                       "model of the (type, back end, operation) the NAME announces" % config,
+                  dist={"byname_" + config: len(cases)})
+        ctx.extra.setdefault("correspondence_C_names", {})[config] = {"cases": len(cases), "disagreements": bad}
+
+
+def ulp_close(ty, xa, xb, ulps):
+    if xa == xb:
+        return True
+    if xa == "nan" or xb == "nan" or xa == "-" or xb == "-":
+        return False
+    ia, ib = int(xa, 16), int(xb, 16)
+    sign = 1 << (WIDTH[ty] - 1)
+
+    def key(i):
+        return -(i & (sign - 1)) if i & sign else (i & (sign - 1))
+    return abs(key(ia) - key(ib)) <= ulps
+
+
+def lines_agree(a, b, e, config, n):
+    """Equality of canonical lines; on the nightly build (FastMath tail: algebraic float ops) float results are
+    held to the property's own tolerance: element-wise division 2 ulp, reductions a relative slack that every
+    order of accumulation satisfies on the well-conditioned data used here."""
+    ca, cb = canon_line(a, e), canon_line(b, e)
+    if ca == cb:
+        return True
+    if ca is None or cb is None or config != "nightly" or e["ty"][0] != "f":
+        return False
+    ta, tb = ca.split(" "), cb.split(" ")
+    if len(ta) != len(tb) or ta[0] != tb[0]:
+        return False
+    op = e["op"]
+    if op in ("generic_div_value", "generic_div_vector"):
+        return all(ulp_close(e["ty"], x, y, 2) for x, y in zip(ta[1:], tb[1:]))
+    if op in ("generic_sum", "generic_dot_product", "generic_squared_norm", "generic_euclidean", "generic_cosine"):
+        return all(ulp_close(e["ty"], x, y, 64 * (n + 8)) for x, y in zip(ta[1:], tb[1:]))
+    return False
